@@ -94,6 +94,13 @@ type Source struct {
 
 	// wg tracks the number of in flight calls to the connectorPlugin.
 	wg sync.WaitGroup
+	// closing is set by Teardown, under Instance's lock, right before it waits
+	// for the in flight plugin calls to return. From then on preparePluginCall
+	// refuses new calls. Without it a call that starts while Teardown is
+	// blocked in wg.Wait would raise the counter from zero concurrently with
+	// that Wait, which sync.WaitGroup forbids and answers with a panic
+	// ("WaitGroup is reused before previous Wait has returned").
+	closing bool
 
 	// ackMu guards pendingAcks, nextAckSeq and durableAckSeq below. It is
 	// deliberately separate from Instance's RWMutex: onPersistFlushed runs
@@ -424,6 +431,8 @@ func (s *Source) Teardown(ctx context.Context) error {
 	if s.stopStream != nil {
 		s.stopStream()
 	}
+	// No new plugin calls from here on, see the closing field doc.
+	s.closing = true
 	s.Instance.Unlock()
 
 	// Join the delivery goroutine before waiting on in-flight plugin calls and
@@ -887,7 +896,7 @@ func (s *Source) OnDelete(ctx context.Context) (err error) {
 func (s *Source) preparePluginCall() (func(), error) {
 	s.Instance.RLock()
 	defer s.Instance.RUnlock()
-	if s.plugin == nil {
+	if s.plugin == nil || s.closing {
 		return func() { /* do nothing */ }, plugin.ErrPluginNotRunning
 	}
 	// increase wait group so Teardown knows a call to the plugin is running
